@@ -96,6 +96,8 @@ def shared_state(est):
                 continue
             if isinstance(v, (bool, int, float, str, dict, list, set, tuple, np.ndarray)) or v is None:
                 items.append((f'{mod.__name__}.{k}', digest(v)))
+    # the library's configuration as THIS thread sees it: every later computation reads it
+    items.append(('pykoop.get_config()', digest(dict(pykoop.get_config()))))
     return sorted(items)
 
 
@@ -206,11 +208,11 @@ def zoo(rng, thorough):
         {'n_components': [3, 5], 'shape': [0.5, 1], 'method': ['weight_only', 'weight_offset'], 'kernel_or_ft': ['gaussian', 'laplacian', 'cauchy']})
     add('RandomBinningKernelApprox', lambda: pykoop.RandomBinningKernelApprox(n_components=3, random_state=7), 'kernel',
         {'n_components': [2, 3], 'shape': [0.5, 1]})
-    add('Tsvd', lambda: pykoop.Tsvd('rank', 2), 'tsvd', {'truncation_param': [1, 2, 3]})
+    add('Tsvd', lambda: pykoop.Tsvd('rank', 2), 'tsvd', {'truncation_param': [1, 2, 3, 9]})     # 9: more than any data set has
     add('Edmd', lambda: pykoop.Edmd(alpha=0.1), 'regressor', {'alpha': [0, 0.1, 1]})
     add('EdmdMeta', lambda: pykoop.EdmdMeta(), 'regressor')
     add('Dmdc', lambda: pykoop.Dmdc(tsvd_unshifted=pykoop.Tsvd('rank', 3)), 'regressor',
-        {'mode_type': ['exact', 'projected'], 'tsvd_unshifted__truncation_param': [2, 3]})
+        {'mode_type': ['exact', 'projected'], 'tsvd_unshifted__truncation_param': [2, 3, 8]})
     add('DataRegressor', lambda: pykoop.DataRegressor(), 'regressor')
     add('LmiEdmd/svd', lambda: lmi.LmiEdmd(alpha=0.1, inv_method='svd', solver_params=dict(SOLVER)), 'regressor',
         {'alpha': [0.1, 1]}, tol=1e-7, tags={'lmi': True, 'inv_method': 'svd'})
@@ -306,8 +308,35 @@ def run_history(ctx, z, length, frames=False):
     p0 = digest(est.get_params(deep=True))
     last = None
     for step in range(length):
-        ops = ['fit', 'fit', 'read', 'set', 'get', 'clone', 'mutate']
+        ops = ['fit', 'fit', 'read', 'set', 'get', 'clone', 'mutate', 'failed-call']
         op = rng.choice(ops)
+        if op == 'failed-call':
+            # a call FAILS and the caller catches the exception (user code raising inside a config_context block, a fit /
+            # transform on a malformed argument): nothing of it may survive in the estimator or in the process
+            shared0 = shared_state(est)
+            attrs0 = digest(fitted_attrs(est)) + digest(est.get_params(deep=True))
+            kind = rng.choice(['raise inside config_context', 'malformed argument inside config_context', 'malformed argument'])
+            try:
+                if kind == 'raise inside config_context':
+                    with pykoop.config_context(skip_validation=rng.choice([True, False])):
+                        raise KeyError('user code failed inside the block')
+                elif kind == 'malformed argument inside config_context':
+                    with pykoop.config_context(skip_validation=True):
+                        est.transform(np.zeros((3,))) if hasattr(est, 'transform') else est.predict(np.zeros((3,)))
+                else:
+                    est.transform(np.array([['a', 'b']])) if hasattr(est, 'transform') else est.predict(np.array([['a', 'b']]))
+            except Exception:
+                pass
+            hist.append('failed call: ' + kind)
+            if shared_state(est) != shared0:
+                changed = sorted({k for (k, v) in set(shared_state(est)) ^ set(shared0)})
+                fails.append((f'a failed call ({kind}) left a trace in state shared by the whole process: {changed[:4]}',
+                              {'estimator': z['name'], 'part': 'shared'}))
+                return hist, fails
+            if digest(fitted_attrs(est)) + digest(est.get_params(deep=True)) != attrs0:
+                fails.append((f'a failed call ({kind}) changed the fitted state or the parameters of the estimator',
+                              {'estimator': z['name'], 'part': 'read'}))
+            continue
         if op == 'mutate' and not frames:
             # the caller overwrites a data array IN PLACE (same object, new contents); later fits on it must see the
             # new contents (no decomposition / statistics cached by object identity)
@@ -428,6 +457,10 @@ def refit_sweep(ctx, z):
             hist.append(f'fit(0) raised {type(ex).__name__}')
             continue
         hist.append('fit(0)')
+        if digest(est.get_params(deep=True)[k]) != digest(v):
+            fails.append((f'fit modified its constructor arguments: set_params({k}={v!r}), fit, then get_params gives '
+                          f'{est.get_params(deep=True)[k]!r}', {'estimator': z['name'], 'part': 'params'}))
+            break
         fresh = sklearn.base.clone(est)
         try:
             fresh.fit(X, **kw)
